@@ -383,7 +383,9 @@ func runC05(x *core.Ctx) {
 			ai, a := ai, a
 			x.Eval("kept-while-decoding-others")
 			if f := c05Kept(frames, ai); f != nil {
-				x.Report(f, func() core.Case { return core.Case{Harness: "c05.kept", Frame: hexOf(a.B), Params: map[string]any{"index": ai}} },
+				x.Report(f, func() core.Case {
+					return core.Case{Harness: "c05.kept", Frame: hexOf(a.B), Params: map[string]any{"index": ai}}
+				},
 					func() *core.Finding { return c05Kept(streamCorpus(), ai) })
 			}
 		}
